@@ -5,9 +5,15 @@ type nat =
 | O
 | S of nat
 
+type ('a, 'b) sum =
+| Inl of 'a
+| Inr of 'b
+
 val fst : ('a1 * 'a2) -> 'a1
 
 val snd : ('a1 * 'a2) -> 'a2
+
+val length : 'a1 list -> nat
 
 val app : 'a1 list -> 'a1 list -> 'a1 list
 
@@ -33,6 +39,13 @@ type z =
 | Z0
 | Zpos of positive
 | Zneg of positive
+
+val eqb : bool -> bool -> bool
+
+module Nat :
+ sig
+  val eqb : nat -> nat -> bool
+ end
 
 module Pos :
  sig
@@ -98,6 +111,8 @@ module Coq_Pos :
   val iter_op : ('a1 -> 'a1 -> 'a1) -> positive -> 'a1 -> 'a1
 
   val to_nat : positive -> nat
+
+  val of_succ_nat : nat -> positive
  end
 
 module N :
@@ -152,6 +167,8 @@ module N :
 
   val to_nat : n -> nat
 
+  val of_nat : nat -> n
+
   val ones : n -> n
  end
 
@@ -167,9 +184,15 @@ val fold_left : ('a1 -> 'a2 -> 'a1) -> 'a2 list -> 'a1 -> 'a1
 
 val existsb : ('a1 -> bool) -> 'a1 list -> bool
 
+val forallb : ('a1 -> bool) -> 'a1 list -> bool
+
 val filter : ('a1 -> bool) -> 'a1 list -> 'a1 list
 
+val find : ('a1 -> bool) -> 'a1 list -> 'a1 option
+
 val skipn : nat -> 'a1 list -> 'a1 list
+
+val repeat : 'a1 -> nat -> 'a1 list
 
 module Z :
  sig
@@ -240,11 +263,47 @@ type color =
 | White
 | Black
 
+type piece =
+| Pawn
+| Knight
+| Bishop
+| Rook
+| Queen
+| King
+
+type side =
+| KingSide
+| QueenSide
+
+val color_idx : color -> n
+
+val piece_idx : piece -> n
+
+val side_idx : side -> n
+
+val opp0 : color -> color
+
+val color_eqb : color -> color -> bool
+
+val piece_eqb : piece -> piece -> bool
+
+val promo_pieces : piece list
+
 val file_of : n -> n
 
 val rank_of : n -> n
 
+val mk_sq : n -> n -> n
+
+type move = { m_src : n; m_dst : n; m_promo : piece option }
+
+val opt_piece_eqb : piece option -> piece option -> bool
+
+val move_eqb : move -> move -> bool
+
 val bb_empty : n
+
+val bb_full : n
 
 val from_pos : n -> n
 
@@ -299,6 +358,10 @@ val it_next : n -> n option * n
 val nth_default_fuel : nat -> n -> n -> n option * n
 
 val nth_default : n -> n -> n option * n
+
+type 'a outcome =
+| Ret of 'a
+| Trap
 
 val from_squares : n list -> n
 
@@ -658,6 +721,371 @@ val run_stack_from :
 
 val run_stack : n list -> (n * sop) list -> bool list list
 
+type cell = (color * piece) option
+
+type position = { cells : cell list; stm : color; cr_wk : bool; cr_wq : 
+                  bool; cr_bk : bool; cr_bq : bool; epf : n option; hm : 
+                  n; fm : n }
+
+val cell_at : cell list -> n -> cell
+
+val set_nth : 'a1 list -> nat -> 'a1 -> 'a1 list
+
+val cell_set : cell list -> n -> cell -> cell list
+
+val is_piece : cell list -> color -> piece -> n -> bool
+
+val occupied : cell list -> n -> bool
+
+val has_color : cell list -> color -> n -> bool
+
+val offs : n -> (z * z) list -> n list
+
+val first_occupied : cell list -> n list -> n option
+
+val attacked_by : cell list -> color -> n -> bool
+
+val king_square : cell list -> color -> n option
+
+val in_check_cells : cell list -> color -> bool
+
+val last_rank : color -> n
+
+val home_rank : color -> n
+
+val ep_capture_rank : color -> n
+
+val ep_pawn_rank : color -> n
+
+val mk : n -> n -> piece option -> move
+
+val with_promos : color -> n -> n -> move list
+
+val slide_targets : cell list -> color -> n list -> n list
+
+val can_castle_right : position -> color -> side -> bool
+
+val castle_moves : position -> move list
+
+val is_ep_target : position -> color -> n -> bool
+
+val pawn_moves_from : position -> n -> move list
+
+val piece_moves_from : position -> n -> piece -> move list
+
+val pseudo : position -> move list
+
+val make : position -> move -> position
+
+val legal : position -> move -> bool
+
+val legal_moves : position -> move list
+
+val is_legal_move : position -> move -> bool
+
+val in_check : position -> bool
+
+type status =
+| CheckMate
+| Draw
+| Check
+| Running
+
+val classify : position -> status
+
+val cell_eqb : cell -> cell -> bool
+
+val cells_eqb : cell list -> cell list -> bool
+
+val optN_eqb : n option -> n option -> bool
+
+val same_position : position -> position -> bool
+
+val mirror_cell : cell -> cell
+
+val mirror_sq : n -> n
+
+val mirror : position -> position
+
+val back_row : piece list
+
+val start_cells : cell list
+
+val start_position : position
+
+val count_cells : (cell -> bool) -> cell list -> n
+
+val playable : position -> bool
+
+type board = { b_zob : n; b_turn : color; b_rights : n; b_ep : n option;
+               b_half : n; b_full : n; b_pinned : n; b_checkers : n;
+               b_white : n; b_black : n; b_pawn : n; b_knight : n;
+               b_bishop : n; b_rook : n; b_queen : n; b_king : n }
+
+val colors : board -> color -> n
+
+val pieces : board -> piece -> n
+
+val all_occ : board -> n
+
+val set_color : board -> color -> n -> board
+
+val set_piece : board -> piece -> n -> board
+
+val set_zob : board -> n -> board
+
+val set_meta : board -> color -> n -> n option -> n -> n -> n -> n -> board
+
+val set_pins : board -> n -> n -> board
+
+val nthN0 : n list -> n -> n
+
+val zkey : n -> piece -> color -> n
+
+val zkey_turn : color -> n
+
+val zkey_castle : n -> n
+
+val zkey_ep : n -> n
+
+val color_of : board -> n -> color option
+
+val piece_of_unchecked : board -> n -> piece
+
+val piece_of : board -> n -> piece option
+
+val raw_get : board -> n -> (color * piece) option
+
+val raw_set_unchecked : board -> color -> piece -> n -> board
+
+val raw_remove : board -> color -> piece -> n -> board
+
+val raw_xor : board -> color -> piece -> n -> board
+
+val has_kings : board -> bool
+
+val board_xor : board -> color -> piece -> n -> board
+
+val cr_offset : side -> color -> n
+
+val cr_contains : n -> side -> color -> bool
+
+val cr_contains_color : n -> color -> bool
+
+val cr_with : n -> side -> color -> n
+
+val cr_full : n
+
+val cr_keep : color -> n -> n
+
+val cr_remove_for_sq : n -> color -> n -> n
+
+val king_sq : board -> color -> n
+
+val zobrist : board -> n
+
+val in_check0 : board -> bool
+
+val enpassant_pos : board -> n option
+
+val ep_capture_rank_of : color -> n
+
+val ep_pawn_rank_of : color -> n
+
+val board_eqb : board -> board -> bool
+
+val board_all_eqb : board -> board -> bool
+
+val scan_sliders : n -> n -> n list -> n * n
+
+val update_pin_info : board -> board
+
+type verr =
+| MissingKings
+| InvalidCastleRights
+| InvalidEnpassant
+| TooManyPieces
+| OpponentInCheck
+
+val validate_en_passant : board -> bool
+
+val get_is : board -> n -> color -> piece -> bool
+
+val validate_castle_rights : board -> bool
+
+val attackers_of : board -> color -> n -> n -> n
+
+val validate : board -> verr option
+
+val empty_board : board
+
+val standard : board
+
+type bop =
+| BTurn of color
+| BHalf of n
+| BFull of n
+| BEnpassant of n option
+| BPlace of n * color * piece
+| BRemove of n
+
+val bstep : board -> bop -> board * bool
+
+val build : board -> (board, verr) sum
+
+val abs : board -> position
+
+type entry = { e_src : n; e_moves : n; e_promo : bool }
+
+val check_mask : board -> bool -> n -> n
+
+val pseudo_legals : piece -> n -> color -> n -> n -> n
+
+val mk_entries : n list -> (n -> n) -> (n -> bool) -> entry list
+
+val piece_legals : piece -> bool -> bool -> board -> n -> entry list
+
+val is_legal_en_passant : board -> n -> n -> n -> n -> bool
+
+val adjacent_files : n -> n
+
+val pawn_legals : bool -> board -> n -> entry list
+
+val is_legal_king_position : board -> n -> bool
+
+val bACKRANK_BB_of : color -> n
+
+val cASTLE_MOVES_bb : n
+
+val kINGSIDE_FILES : n
+
+val qUEENSIDE_FILES : n
+
+val qUEENSIDE_SAFE_FILES : n
+
+val king_legals : bool -> board -> color -> n -> entry list
+
+val collect_moves : board -> n -> entry list
+
+type movegen = { g_moves : entry list; g_promo : n; g_mask : n; g_index : nat }
+
+val mg_new : entry list -> n -> movegen
+
+val legals_gen : board -> movegen
+
+val legals_masked_gen : board -> n -> movegen
+
+val live : movegen -> entry -> bool
+
+val mg_is_empty : movegen -> bool
+
+val mg_len : movegen -> n
+
+val mg_remove : movegen -> n -> movegen
+
+val mg_remove_move : movegen -> move -> movegen * bool
+
+val swap_front : nat -> entry list -> nat -> nat -> n -> entry list
+
+val mg_set_mask : movegen -> n -> movegen
+
+val promo_at : n -> piece
+
+val skip_dead : movegen -> entry list -> nat -> nat
+
+val set_entry : movegen -> nat -> entry -> n -> nat -> movegen
+
+val mg_next : movegen -> move option * movegen
+
+val mg_drain_fuel : nat -> movegen -> move list
+
+val mg_drain : movegen -> move list
+
+val legals : board -> move list
+
+val is_legal : board -> move -> bool
+
+val sat16 : n -> n
+
+val set_half : board -> n -> board
+
+val set_full : board -> n -> board
+
+val set_ep : board -> n option -> board
+
+val set_rights : board -> n -> board
+
+val set_checkers : board -> n -> board
+
+val apply : board -> move -> board
+
+type gstate =
+| GCheckMate
+| GStaleMate
+| GCheck
+| GRunning
+
+val state : board -> gstate
+
+type ws_kind =
+| WsPieces
+| WsTurn
+| WsCastleRights
+| WsEnpassant
+| WsHalfMoveClock
+
+type perr =
+| InvalidPiece of n * n
+| MissingPiece of n
+| MissingWhitespace of ws_kind
+| InvalidTurn of n
+| MissingTurn
+| FileOutOfBounds of n
+| InvalidEnpassantE of n * n
+| MissingEnpassant
+| MissingCastleRights
+| MissingHalfClock
+| MissingFullClock
+| TrailingBytes
+| BoardValidation of verr
+
+type presult =
+| POk of board
+| PErr of perr
+
+val parse_piece_byte : n -> (color * piece, n) sum option
+
+val placement :
+  n list -> n -> n -> board -> (perr, board * n list) sum outcome
+
+val skip_spaces : n list -> n list
+
+val parse_whitespace : n list -> ws_kind -> (perr, n list) sum
+
+val parse_flag : n list -> n -> bool * n list
+
+val parse_digits : nat -> n list -> n -> n * n list
+
+val parse_number : n list -> (n * n list) option
+
+val is_empty_list : 'a1 list -> bool
+
+val parse_fen_t : n list -> presult outcome
+
+val dec_digits : nat -> n -> n list -> n list
+
+val show_dec : n -> n list
+
+val piece_char : color -> piece -> n
+
+val flush : n -> n list
+
+val write_rank : board -> n -> n list
+
+val write_rights : n -> n list
+
+val write_fen : board -> n list
+
 val api_score_cmp : score -> score -> comparison
 
 val api_score_partial_cmp : score -> score -> comparison option
@@ -833,3 +1261,73 @@ val api_rank_iter_next : n -> range -> n option * range
 val api_mk_range : n -> n -> range
 
 val api_run_stack : n list -> (n * sop) list -> bool list list
+
+val api_parse_fen_t : n list -> presult outcome
+
+val api_write_fen : board -> n list
+
+val api_legals : board -> move list
+
+val api_is_legal : board -> move -> bool
+
+val api_gen_len : board -> n * bool
+
+val api_in_check : board -> bool
+
+val api_state : board -> gstate
+
+val api_zobrist : board -> n
+
+val api_apply : board -> move -> board
+
+val api_abs : board -> position
+
+val api_board_all_eqb : board -> board -> bool
+
+val api_board_eqb : board -> board -> bool
+
+val api_standard : board
+
+val api_empty_board : board
+
+val api_bstep : board -> bop -> board * bool
+
+val api_build : board -> (board, verr) sum
+
+val api_spec_legal_moves : position -> move list
+
+val api_spec_is_legal : position -> move -> bool
+
+val api_spec_in_check : position -> bool
+
+val api_spec_classify : position -> status
+
+val api_spec_make : position -> move -> position
+
+val api_spec_playable : position -> bool
+
+val api_spec_same_position : position -> position -> bool
+
+val api_spec_start : position
+
+val api_spec_mirror : position -> position
+
+val api_spec_pos_eqb : position -> position -> bool
+
+val api_legals_gen : board -> movegen
+
+val api_legals_masked_gen : board -> n -> movegen
+
+val api_mg_next : movegen -> move option * movegen
+
+val api_mg_len : movegen -> n
+
+val api_mg_is_empty : movegen -> bool
+
+val api_mg_set_mask : movegen -> n -> movegen
+
+val api_mg_remove : movegen -> n -> movegen
+
+val api_mg_remove_move : movegen -> move -> movegen * bool
+
+val api_mk_move : n -> n -> piece option -> move
